@@ -30,11 +30,14 @@ fn special_forms(ch: &mut Chooser) -> Form {
         11 => return Form::Raw("(car '(1 2)))".into()),
         _ => {}
     }
-    Form::Expr(match ch.below(9) {
+    Form::Expr(match ch.below(11) {
         // character literals whose character is a blank: the blank may be the last character of an input line
         6 => app("list", vec![Expr::Char(' '), Expr::Char('a'), Expr::Char(' ')]),
         7 => Expr::Char(if ch.chance(1, 2) { ' ' } else { '\t' }),
         8 => app("vector", vec![Expr::Char('\t'), Expr::Int(2), Expr::Char(' '), Expr::Str("a ".into())]),
+        // a string literal that continues on the next input line while a list is open
+        9 => app("list", vec![Expr::RawStr("first line\nsecond (line".into()), Expr::Int(1)]),
+        10 => app("vector", vec![Expr::Int(0), Expr::RawStr("a\n\nb) ; not a comment\n".into())]),
         0 => app("list", vec![Expr::Str("(".into()), Expr::Str(")".into()), Expr::Int(1)]),
         1 => app("list", vec![Expr::Char('('), Expr::Char(')'), Expr::Char(';')]),
         2 => app("list", vec![Expr::Str("a;b".into()), Expr::Str("x ; y (".into())]),
@@ -98,6 +101,21 @@ pub fn gen_session(ch: &mut Chooser) -> SessionCase {
         g.gen_program()
     };
     let mut body = valid;
+    // a counter, and definitions whose initialiser has an effect: evaluating a submission twice, or keeping it in the
+    // input buffer, shows in the values that follow
+    forms.push(Form::Define(Def { name: "nx".into(), value: Expr::Int(0), sugar: false }));
+    forms.push(Form::Define(Def {
+        name: "next!".into(),
+        value: Expr::Lambda(
+            Formals { fixed: vec![], rest: None },
+            Box::new(Body { defs: vec![], exprs: vec![Expr::Set("nx".into(), Box::new(app("+", vec![var("nx"), Expr::Int(1)]))), var("nx")] }),
+        ),
+        sugar: true,
+    }));
+    for k in 0..ch.below(3) {
+        let pos = ch.below(body.len() + 1);
+        body.insert(pos, Form::Define(Def { name: format!("eff{}", k), value: app("next!", vec![]), sugar: false }));
+    }
     for _ in 0..1 + ch.below(4) {
         let pos = ch.below(body.len() + 1);
         body.insert(pos, special_forms(ch));
@@ -115,6 +133,11 @@ pub fn gen_session(ch: &mut Chooser) -> SessionCase {
         fault_pos = Some(forms.len() + pos);
     }
     forms.extend(body);
+    // a value followed by an effectful definition, usually entered as one submission (which then prints nothing)
+    let pair_at = forms.len();
+    forms.push(Form::Expr(Expr::Int(41)));
+    forms.push(Form::Define(Def { name: "zq".into(), value: app("next!", vec![]), sugar: false }));
+    forms.push(Form::Expr(app("list", vec![var("zq"), var("nx")])));
     // something observable after everything else: definitions survive errors
     forms.push(Form::Expr(app("list", vec![var("wn"), var("five"), app("two", vec![Expr::Int(1), Expr::Int(2)])])));
     let mut splittings = vec![];
@@ -128,7 +151,11 @@ pub fn gen_session(ch: &mut Chooser) -> SessionCase {
         }
         splittings.push(per_form);
     }
-    let join_next: Vec<bool> = (0..forms.len()).map(|_| ch.chance(1, 5)).collect();
+    let mut join_next: Vec<bool> = (0..forms.len()).map(|_| ch.chance(1, 5)).collect();
+    join_next[pair_at] = ch.chance(2, 3);
+    if join_next[pair_at] && pair_at > 0 {
+        join_next[pair_at - 1] = false;
+    }
     SessionCase { forms, splittings, has_fault, max_lines_after_fault, join_next }
 }
 
@@ -180,6 +207,8 @@ pub fn judge(c: &SessionCase) -> Report {
         }
     }
     exp_out.push("exited. have a nice day.".to_string());
+    // values may print over several lines
+    let exp_out: Vec<String> = exp_out.join("\n").lines().map(|l| l.to_string()).collect();
     let dir = scratch("c18");
     let mut first: Option<(Vec<String>, Vec<String>)> = None;
     for (si, split) in c.splittings.iter().enumerate() {
@@ -201,7 +230,7 @@ pub fn judge(c: &SessionCase) -> Report {
         if si == 0 {
             rep.note = format!("stdout {:?} stderr {:?}", out, err);
             if rep.note.len() > 700 {
-                rep.note.truncate(700);
+                crate::sut::truncate_chars(&mut rep.note, 700);
             }
         }
         if err.iter().any(|l| l.contains("panicked at")) {
@@ -240,6 +269,6 @@ pub fn run(ctx: &Ctx) {
     if ctx.skip_sub("sessions") {
         return;
     }
-    let cases = ctx.tier.pick(200, 3_000);
+    let cases = ctx.tier.pick(600, 5_000);
     ctx.random("sessions", cases, 500, |ch| judge(&gen_session(ch)));
 }
